@@ -237,7 +237,16 @@ def cgr_event(text, size, pts, src):
                     acc = acc * 2
             row.append(acc)
         tops.append(row)
-    emit({"ev": "cgr", "src": src, "s": size, "bytes": b, "err": 0, "npts": n, "nexact": nex, "pts": flat, "tops": tops})
+    # the midpoint rule in double precision, point after point (Python floats are the same doubles)
+    corner = {"A": (0.0, 0.0), "C": (0.0, float(size)), "G": (float(size), float(size)), "T": (float(size), 0.0), "U": (float(size), 0.0)}
+    prev = (size / 2.0, size / 2.0)
+    recur = 0
+    for ch, p in zip(text, pts):
+        c = corner.get(ch.upper())
+        if c is None or ((c[0] + prev[0]) / 2.0, (c[1] + prev[1]) / 2.0) != (p[0], p[1]):
+            recur += 1
+        prev = p
+    emit({"ev": "cgr", "src": src, "s": size, "bytes": b, "err": 0, "npts": n, "nexact": nex, "pts": flat, "tops": tops, "recur": recur})
 
 
 def cgr(seed, runs, maxlen):
